@@ -1,7 +1,7 @@
 SPECIFICATION MCSpec
 CONSTANTS
   Hashes = {"h1", "h2"}
-  NA = 4
+  NA = 3
   Value = 3
   MaxOps = 1000000
   F2Quirk = FALSE
